@@ -418,19 +418,24 @@ def c17_search(rng, n, tol=1e-12):
         dt = rng.choice([0.125, 0.0625, 0.1])
         ts = [0.0, 0.3, 0.5]
         p = dict(method=method, batch=batch, m=sde.m, seed=seed)
+        # adaptive stepping is in scope too: both declarations must take the same accepted steps (the controller must not look
+        # at the declaration); rounding differences between bmm and element-wise products move step sizes by ~1e-16 only
+        adaptive = rng.random() < 0.35
+        kw = dict(adaptive=True, rtol=1e-3, atol=1e-3, dt_min=1e-4) if adaptive else {}
         try:
-            with torch.no_grad():
-                a = torchsde.sdeint(sde, y0, ts, bm=make_bm(p, 0.0, 0.5), method=method, dt=dt)
-                b = torchsde.sdeint(AsGeneral(sde), y0, ts, bm=make_bm(p, 0.0, 0.5), method=method, dt=dt)
+            with torch.no_grad(), core.time_limit(120):
+                a = torchsde.sdeint(sde, y0, ts, bm=make_bm(p, 0.0, 0.5), method=method, dt=dt, **kw)
+                b = torchsde.sdeint(AsGeneral(sde), y0, ts, bm=make_bm(p, 0.0, 0.5), method=method, dt=dt, **kw)
             dfc = float((a - b).abs().max())
-            bad = None if dfc <= tol else f'solutions differ by {dfc}'
+            bad = None if dfc <= (1e-8 if adaptive else tol) else f'solutions differ by {dfc}' + (' (adaptive)' if adaptive else '')
+            st['adaptive'] = st.get('adaptive', 0) + int(adaptive)
         except Exception as e:  # noqa
             bad, dfc = f'{type(e).__name__}: {e}', 0.0
         st['evals'] += 1
         st['by_noise'][noise] = st['by_noise'].get(noise, 0) + 1
         st['worst'] = max(st['worst'], dfc)
         if bad:
-            fails.append(dict(kind='c17', method=method, noise=noise, d=d, m=sde.m, batch=batch, seed=seed, dt=dt, why=bad))
+            fails.append(dict(kind='c17', method=method, noise=noise, d=d, m=sde.m, batch=batch, seed=seed, dt=dt, adaptive=adaptive, why=bad))
             if len(fails) >= 2:
                 break
     return fails, st
@@ -594,14 +599,15 @@ class RowOpBM(torchsde.BaseBrownian):
     levy_area_approximation = property(lambda s: s.bm.levy_area_approximation)
 
 
-def c20_case(method, sde_type, noise, d, m, batch, seed, dt, row, kind):
+def c20_case(method, sde_type, noise, d, m, batch, seed, dt, row, kind, poison=None, grad_free=False):
     sde = RowSDE(noise, sde_type, d, m, seed)
     g = torch.Generator().manual_seed(seed)
     y0 = 0.3 * torch.randn(batch, d, generator=g, dtype=torch.float64)
     ts = [0.0, 0.3, 0.5]
     p = dict(method=method, batch=batch, m=sde.m, seed=seed)
     with torch.no_grad():
-        a = torchsde.sdeint(sde, y0, ts, bm=make_bm(p, 0.0, 0.5), method=method, dt=dt)
+        opts = dict(options=dict(grad_free=True)) if grad_free else {}
+        a = torchsde.sdeint(sde, y0, ts, bm=make_bm(p, 0.0, 0.5), method=method, dt=dt, **opts)
         if kind == 'perturb':
             other = make_bm(dict(p, seed=seed + 1), 0.0, 0.5)
             noise_g = torch.Generator().manual_seed(seed + 2)
@@ -617,14 +623,17 @@ def c20_case(method, sde_type, noise, d, m, batch, seed, dt, row, kind):
             mask = torch.ones(batch, dtype=torch.bool)
             mask[row] = False
             y1[mask] = y1[mask] * -0.7 + 0.2
-            b = torchsde.sdeint(sde, y1, ts, bm=RowOpBM(make_bm(p, 0.0, 0.5), op), method=method, dt=dt)
+            if poison:  # the other rows hold non-finite / huge values: row `row` must still not notice
+                y1[mask] = torch.tensor(poison, dtype=torch.float64)
+            b = torchsde.sdeint(sde, y1, ts, bm=RowOpBM(make_bm(p, 0.0, 0.5), op), method=method, dt=dt, **opts)
             ok = torch.equal(a[:, row], b[:, row])
             dfc = float((a[:, row] - b[:, row]).abs().max())
         else:
             perm = torch.tensor(sorted(range(batch), key=lambda i: (i * 7 + seed) % batch + 0.01 * i))
             if batch > 1 and torch.equal(perm, torch.arange(batch)):
                 perm = perm.flip(0)
-            b = torchsde.sdeint(sde, y0[perm], ts, bm=RowOpBM(make_bm(p, 0.0, 0.5), lambda k, x: x[perm]), method=method, dt=dt)
+            b = torchsde.sdeint(sde, y0[perm], ts, bm=RowOpBM(make_bm(p, 0.0, 0.5), lambda k, x: x[perm]), method=method, dt=dt,
+                                **opts)
             ok = torch.equal(a[:, perm], b)
             dfc = float((a[:, perm] - b).abs().max())
     return ok, dfc
@@ -638,6 +647,10 @@ def c20_search(rng, n):
                    batch=rng.choice([2, 3, 5]), seed=rng.randrange(10 ** 6), dt=rng.choice([0.125, 0.0625, 0.1]),
                    kind=rng.choice(['perturb', 'permute']))
         cfg['row'] = rng.randrange(cfg['batch'])
+        if cfg['kind'] == 'perturb' and rng.random() < 0.4:
+            cfg['poison'] = rng.choice([float('nan'), float('inf'), -float('inf'), 1e300])
+        if method == 'milstein' and noise != 'additive' and rng.random() < 0.5:
+            cfg['grad_free'] = True
         try:
             ok, dfc = c20_case(**cfg)
             bad = None if ok else f"row {cfg['row']} changed by {dfc} ({cfg['kind']})"
